@@ -19,7 +19,7 @@ from .rg import latex_defs, _param_strings, _entry_name
 def sp5(model):
     r = RuleResult('SP5', 'every character for which the scanner itself makes a SpecialToken is a '
                    'key of special_tokens (the token is later looked up there), and macro names '
-                   'consist of ASCII letters and @ only', floor=2)
+                   'consist of ASCII letters and @ only', floor=1)
     tab, node = tables.parameters_table(model, 'special_tokens')
     nt = model.func('scanner.Scanner.next_token')
     cls = model.cls('scanner.Scanner')
@@ -42,6 +42,18 @@ def sp5(model):
                         r.fail(makers[T.call_name(c)], 'the scanner makes a SpecialToken for %r, which is '
                                'not a key of special_tokens: KeyError when it is expanded' % ch,
                                witness='a stray %s in the text' % ch)
+    # the same dispatch as a table: {'#': self.scan_arg_token, ...}.get(c)
+    for d in ast.walk(nt.node):
+        if isinstance(d, ast.Dict):
+            for k, v in zip(d.keys, d.values):
+                if isinstance(k, ast.Constant) and isinstance(v, ast.Attribute) and v.attr in makers:
+                    if k.value in tab:
+                        r.ok(d, 'character %r dispatched to %s is a key of special_tokens' % (k.value, v.attr),
+                             nontrivial=True)
+                    else:
+                        r.fail(makers[v.attr], 'the scanner makes a SpecialToken for %r, which is not a key of '
+                               'special_tokens: KeyError when it is expanded' % k.value,
+                               witness='a stray %s in the text' % k.value)
     mc = model.func('parameters.Parameters.macro_character')
     calls = [n for n in ast.walk(mc.node) if isinstance(n, ast.Call) and T.call_name(n) in
              ('isalpha', 'isalnum', 'isidentifier', 'isascii')]
@@ -177,7 +189,14 @@ def ix13(model):
                        'matches' % T.call_name(src),
                        witness='a match on a backslash that is not followed by letters (\\\\ or \\,)')
                 continue
-            if guards.has_fact(n, lambda e, t: t and isinstance(e, ast.Name) and e.id == name):
+            def nonnone(e, t):
+                if t and isinstance(e, ast.Name) and e.id == name:
+                    return True
+                return isinstance(e, ast.Compare) and len(e.ops) == 1 and isinstance(e.left, ast.Name) \
+                    and e.left.id == name and T.is_const(e.comparators[0], None) \
+                    and isinstance(e.ops[0], (ast.Is, ast.IsNot, ast.Eq, ast.NotEq)) \
+                    and isinstance(e.ops[0], (ast.IsNot, ast.NotEq)) == t
+            if guards.has_fact(n, nonnone):
                 r.ok(n, '%s.%s under a truth test of %s' % (name, n.attr, name), nontrivial=True)
             else:
                 r.fail(n, '%s may be None (no match) and %s.%s is evaluated without a test'
@@ -352,7 +371,8 @@ def lc3(model):
                 and n.targets[0].attr.endswith('_vowel'):
             tgt = n.targets[0].attr
             base = tgt[:-len('_vowel')]
-            names = {x.id for x in ast.walk(n.value) if isinstance(x, ast.Name)}
+            names = {x.id for x in ast.walk(n.value) if isinstance(x, ast.Name)
+                     and not (isinstance(getattr(x, '_parent', None), ast.Call) and x._parent.func is x)}
             if names <= {base, tgt}:
                 r.ok(n, '%s falls back to %s' % (tgt, base), sample=False)
             else:
@@ -420,6 +440,17 @@ def rx5(model):
                         iters = [g.iter for g in gens if isinstance(g.target, ast.Name) and g.target.id == rep.id]
                         if isinstance(a, ast.For) and isinstance(a.target, ast.Name) and a.target.id == rep.id:
                             iters.append(a.iter)
+                        # for regex, replacement in <literal table of pairs>
+                        if isinstance(a, ast.For) and isinstance(a.target, ast.Tuple):
+                            idx = next((i for i, t_ in enumerate(a.target.elts)
+                                        if isinstance(t_, ast.Name) and t_.id == rep.id), None)
+                            tab = a.iter
+                            if isinstance(tab, ast.Name):
+                                tv = T.resolve_local(model, tab)
+                                tab = tv[0] if len(tv) == 1 else None
+                            if idx is not None and isinstance(tab, (ast.Tuple, ast.List)) and tab.elts and all(
+                                    isinstance(e_, (ast.Tuple, ast.List)) and len(e_.elts) > idx for e_ in tab.elts):
+                                vals = [e_.elts[idx] for e_ in tab.elts]
                         for it in iters:
                             if isinstance(it, (ast.Tuple, ast.List)) and all(isinstance(e, ast.Constant) for e in it.elts):
                                 vals = list(it.elts)
@@ -521,12 +552,11 @@ def th6(model):
     r = RuleResult('TH6', 'the record of a highlighted place is computed from its own message '
                    'only: no field depends on a value carried over from the previous message '
                    '(messages are not sorted, and regions overlap)', floor=4)
-    f = model.func('shell.genhtml.generate_html')
-    loop = next((n for n in f.node.body if isinstance(n, ast.For) and any(
-        isinstance(x, ast.Attribute) and x.attr == 'beglin' and isinstance(x.ctx, ast.Store)
-        for x in ast.walk(n))), None)
-    if loop is None:
+    from .th import html_phases
+    ph = html_phases(model)
+    if not ph['collect']:
         raise AnalysisError('anchor vanished: loop that fills h.beglin in generate_html')
+    f, loop = ph['collect']
     carried = set()
     assigned_in_loop = {}
     for n in ast.walk(loop):
@@ -798,7 +828,12 @@ def ac3(model):
     seen = set()
     for n in ast.walk(f.node):
         if isinstance(n, ast.Assign) and isinstance(n.targets[0], ast.Attribute) and n.targets[0].attr in want \
-                and not isinstance(n.value, ast.Constant):
+                and not isinstance(n.value, ast.Constant) \
+                and any(isinstance(x, ast.Attribute) and x.attr == 'txt' or isinstance(x, ast.Name) and x.id == 'txt'
+                        or isinstance(x, ast.Constant) and x.value == '\n' for x in ast.walk(n.value)) \
+                or isinstance(n, ast.Assign) and isinstance(n.targets[0], ast.Attribute) and n.targets[0].attr in want \
+                and isinstance(n.value, ast.Name) and any(
+                    isinstance(v, ast.Compare) or isinstance(v, ast.BoolOp) for v in T.resolve_local(model, n.value)):
             attr = n.targets[0].attr
             seen.add(attr)
             facts0 = []
